@@ -1,23 +1,15 @@
 package queue
 
 import (
-	"encoding/json"
 	"fmt"
-	"strings"
 	"time"
 
 	col "github.com/craterdog/go-collection-framework/v4/collection"
 	rt "github.com/craterdog/go-collection-framework/v4/verifrt"
 	"verif/checks/common"
 	"verif/engine"
+	"verif/engine/schedx"
 )
-
-type schedCase struct {
-	Prog    string `json:"prog"`
-	Desc    string `json:"program"`
-	Choices []int  `json:"schedule"`
-	Elide   bool   `json:"elide"`
-}
 
 // exploreProg explores one program and records coverage and violations for
 // property which ("C04" or "C05").
@@ -34,87 +26,11 @@ func exploreProg(r *engine.Rec, p Prog, which string) {
 		}
 		return out
 	}
-	prog := p.Build(judge)
-	if r.ReplayCase != nil {
-		var sc schedCase
-		if json.Unmarshal(r.ReplayCase, &sc) != nil || sc.Prog != p.Name {
-			return
-		}
-		ex, what := rt.Replay(prog, sc.Choices, true, sc.Elide, true)
-		r.Evals++
-		for _, w := range what {
-			parts := strings.SplitN(w, "\x00", 2)
-			r.Violation(sigOf(p, parts[0]), parts[1]+"\ntrace:\n"+strings.Join(ex.Events, "\n"), sc)
-		}
-		return
-	}
-	// warm the class registries (first use registers the generic classes)
-	warm, _ := prog()
-	rt.RunOnce(rt.Config{}, nil, warm)
-
-	outcomes := map[string]bool{}
-	record := func(st rt.ExploreStats, elide bool) {
-		for _, f := range st.Violations {
-			for _, w := range f.What {
-				parts := strings.SplitN(w, "\x00", 2)
-				r.Violation(sigOf(p, parts[0]), parts[1], schedCase{Prog: p.Name, Desc: p.String(), Choices: f.Choices, Elide: elide})
-			}
-		}
-	}
-	bound := 2
-	maxUnbounded := 150000
+	o := schedx.Opts{Name: p.Name, Desc: p.String(), SigPrefix: "family=" + p.Family + " ", CapA: 150000, Bounds: []int{2}, CapB: 400000}
 	if r.Tier == "thorough" {
-		bound = 3
-		maxUnbounded = 3000000
+		o.CapA, o.Bounds, o.CapB = 3000000, []int{2, 3}, 3000000
 	}
-	onExec := func(ex *rt.Exec) {
-		outcomes[fmt.Sprint(ex.SortedStuck(), len(ex.Panics))] = true
-	}
-	opts := rt.ExploreOpts{Bound: bound, Race: true, Elide: true, Deadline: r.Deadline, OnExec: onExec}
-	st := rt.Explore(prog, opts)
-	elide := !st.ElisionOff
-	r.Evals += int64(st.Executions)
-	r.States += int64(st.Points)
-	r.Add("schedules", int64(st.Executions))
-	r.Add("deadlocked_executions", int64(st.Deadlocks))
-	r.Max("threads", int64(st.MaxThreads))
-	r.Max("choice_points_per_execution", int64(st.MaxPoints))
-	record(st, elide)
-	completedBound := bound
-	if !st.Complete {
-		completedBound = -1
-		r.Incomplete(fmt.Sprintf("preemption bound %d not completed for %s", bound, p.Name))
-	}
-	exhaustive := false
-	if st.Complete && len(st.Violations) == 0 {
-		// try the unbounded space
-		opts.Bound = -1
-		opts.MaxExecs = maxUnbounded
-		opts.Elide = elide
-		st2 := rt.Explore(prog, opts)
-		r.Evals += int64(st2.Executions)
-		r.States += int64(st2.Points)
-		r.Add("schedules", int64(st2.Executions))
-		record(st2, elide && !st2.ElisionOff)
-		if st2.Complete {
-			exhaustive = true
-			r.Add("programs_explored_exhaustively", 1)
-		}
-		if st2.MaxPreempt > st.MaxPreempt {
-			st.MaxPreempt = st2.MaxPreempt
-		}
-	}
-	r.Transitions = r.States + r.Evals
-	r.Distinct += int64(len(outcomes))
-	r.Note("bound_completed", completedBound)
-	r.Note("all_interleavings", exhaustive)
-	r.Note("elision", elide)
-	r.Max("preemptions_in_one_execution", int64(st.MaxPreempt))
-	r.Sample(map[string]any{"program": p.String(), "schedules": st.Executions, "bound": completedBound, "all_interleavings": exhaustive})
-	if !exhaustive {
-		// the bounded space was covered completely; the unbounded one was not
-		r.Exhaustive = r.Exhaustive && st.Complete
-	}
+	schedx.Explore(r, p.Build(judge), o)
 }
 
 func sigOf(p Prog, kind string) string {
